@@ -155,7 +155,16 @@ def install_builtins(reg: Registry):
         if c is not None:
             return list(c)
         s = V.as_seq(ex, args[0], node)
-        return V.Seq(s.n, s.item, "list")
+        out = V.Seq(s.n, s.item, "list")
+        if hasattr(s, "source"):
+            out.source = s.source          # list(poly.coefficients): the same arrays
+        return out
+
+    @b("iter")
+    def _iter(ex, args, kw, node):
+        if len(args) == 1 and isinstance(args[0], (V.Seq, list, tuple)):
+            return args[0]              # an iterator over the sequence: consumed as the sequence itself
+        raise U("iter() of this value", node)
 
     @b("tuple")
     def _tuple(ex, args, kw, node):
